@@ -38,7 +38,7 @@ PROBES = ["ran_to_completion", "forced_cleanup_deleted_preexisting", "refused_wi
           "relative_workspace", "default_workspace", "input_via_symlinked_ancestor", "cwd_contains_default_name",
           "c_language", "c_header_preprocess", "second_run_other_project", "second_run_incremental", "spawned_subprocess", "graph_output", "javascript_language",
           "inputs_share_base_name", "input_given_with_leading_dotdots", "strict_parse_mode", "non_utf8_source_file",
-          "pwd_is_start_directory", "pwd_left_over_from_launcher", "two_inputs_contain_workspace", "not_quiet", "taint_report_written", "debug_print_stmts", "workspace_below_a_src_directory", "plugin_option", "first_run_incremental", "workspace_copied_elsewhere", "input_file_deleted_between_runs", "shell_metacharacters_in_c_file_name", "second_run_names_the_workspace_copy_as_input"]
+          "pwd_is_start_directory", "pwd_left_over_from_launcher", "two_inputs_contain_workspace", "not_quiet", "taint_report_written", "debug_print_stmts", "workspace_below_a_src_directory", "plugin_option", "first_run_incremental", "workspace_copied_elsewhere", "input_file_deleted_between_runs", "shell_metacharacters_in_c_file_name", "second_run_names_the_workspace_copy_as_input", "workspace_option_looks_like_a_missing_value"]
 # the same check again, smaller, in interpreters started with assertions stripped (python -O / PYTHONOPTIMIZE=1)
 ENV_VARIANTS = [{"name": "python-O", "env": {"PYTHONOPTIMIZE": "1"}, "runs": {'quick': 250, 'thorough': 2500}}]
 TIERS = {
@@ -123,6 +123,7 @@ def gen_knobs(rng, tier):
         "nested_inputs": rng.random() < 0.2,
         "quiet": rng.random() < 0.6,          # without -q the taint phase writes its report file
         "umask": rng.choice(["022", "022", "077", "000", "027"]),
+        "w_named_like_nothing": rng.random() < 0.08,      # -w None / -w nan: a relative directory whose name looks like a missing value
         "incremental_first": rng.random() < 0.08,     # the first run is already an --incremental one (no -f) on whatever is there
         "plugin": rng.choice(["none", "none", "none", "none", "none", "none", "ok", "broken"]),   # -e <file>: loads, or raises while loading
         "debug_print": rng.random() < 0.15,   # -d -p (never quiet): debug output and statement dumps
@@ -291,6 +292,10 @@ def generate(rng, k):
         run["w"] = {"form": "abs", "path": ws_opt + f"/my_{DEFAULT_WS}_dir"}
     else:
         run["w"] = {"form": "abs", "path": ws_opt}
+    if k.get("w_named_like_nothing") and placement == "disjoint" and run.get("cwd") == "cw":
+        name_ = rng.choice(["None", "nan", "NaN", "null"])
+        run["w"] = {"form": "rel", "path": "cw/" + name_}
+        ops.append({"op": "mkfile", "path": f"cw/{DEFAULT_WS}/frontend/older_results_of_the_user.txt", "content": "keep me\n"})
     run["inputs"] = [{"form": rng.choice(["abs", "rel", "rel"]), "path": p} for p in inputs]
     if k.get("deep_cwd") and run["cwd"] == "cw":
         # started from a directory some levels down: relative paths begin with several ".."
@@ -477,6 +482,8 @@ def execute(trace):
                     "flags": flags_, "quiet": op.get("quiet", True)}
             if "--incremental" in flags_ and n_run == 1:
                 hit("first_run_incremental")
+            if w_value in ("None", "nan", "NaN", "null"):
+                hit("workspace_option_looks_like_a_missing_value")
             if n_run == 2 and any(fsseam._inside(ir, W) for ir in [os.path.realpath(os.path.join(cwd_abs, a)) for a in in_args]) and "--incremental" in flags_:
                 hit("second_run_names_the_workspace_copy_as_input")
             if not op.get("quiet", True):
